@@ -7,6 +7,10 @@ ROOT = os.path.dirname(os.path.dirname(os.path.abspath(__file__)))
 
 # id -> (technique, level text, level note, design ref)
 CHECKS = {
+    "C01": ("Lean 4 theorems for the code generator's environment/path algebra + differential run of the real compiler against a Lean source-semantics interpreter",
+            "Proved for all parameter patterns (nested, dotted, (@ name pat) captures, any width) and all argument values: the path create_name_lookup_ computes selects exactly the value source-level destructuring binds to that name, unaddressable names are exactly the unbound ones, argument paths sit in the right half of the (functions . arguments) environment. The model of that function is tied to the code by comparing the paths the real compiler emits for (mod PAT NAME) over generated patterns of 1..40 names. The full property (compiled program returns v whenever the source meaning is v) is NOT proved for the whole compiler: it is decided differentially — programs from a scope-tracking generator (every dialect sigil x feature strata) are compiled by the real compiler (CLI path with and without -O), run by clvmr and compared with Lang.evalSrc, a call-by-value interpreter of the source tree written in Lean. Genuine defects found this way are listed in known_findings.json (cl22 leaked names, strict-cl-21 -O, signed paths in the classic optimiser) and one was repaired (fix: 3b659e6).",
+            "Lean kernel + the three standard axioms for Layer A; for the rest the assurance is differential and generator-bounded; Lang.evalSrc is trusted as the statement of the language's meaning; clvmr is the evaluator oracle.",
+            "DESIGN.md §4 C01"),
     "C07": ("Lean 4 theorems over a hand model of the converters/hashes/equality + exhaustive correspondence run",
             "Kernel-checked theorems for all values, both integer modes and any hash function: toClvm(fromClvm v)=v; rich tree hash = consensus tree hash of the CLVM form; symbol-table hash likewise on readable values; == is byte identity of fixed-mode encodings and equal values hash alike on readable values (reader/converter outputs, proved readable); the Readable hypothesis shown necessary by a decide witness. The hand model is tied to the code by running model and implementation on every atom of length 0..2 (0..3 thorough), small trees, boundary/random atoms in both modes, and the property oracle is evaluated on the implementation alone.",
             "Lean kernel + the three standard axioms; model<->code tie is differential (generator-bounded); SHA-256 abstract in theorems; std Hash compared through DefaultHasher outputs.",
